@@ -18,6 +18,20 @@ CLAIMED = {
          "Pure-function property: TLC acts as enumerator and evaluator of a relational post-condition (weak fit of the family, stated in DESIGN 7).",
          "Implementation coverage is systematic (boundary classes squared, every low port x boundary widths, boundary lows x all widths <= 102 in the thorough tier) plus seeded sampling, not the full 2^32 space. " + TRUST,
          "5 C17"),
+ "C02": ("TLA+ R-spec Pfcp/TraceE2E: TLC validates traces of the real agent process (every datagram each peer received) against the C02 invariants",
+         "The agent runs as a separate OS process (real start-up path, -tags verif) against the harness BESS server; seeded randomised histories over 1-3 peers "
+         "(accepted / rejected requests of every dispatched type, injected response-type messages, 24-bit sequence-number and 64-bit SEID boundaries) are recorded step by step and TLC "
+         "evaluates ExactlyOneResponse, ResponseTypeMatches, SequenceNumberEchoed, HeaderSeidAddressing, CauseCarried, EstablishmentResponseShape, CreatedPdrPerChosenValue and "
+         "FseidAddressesSession after every consumed step of the reference state machine (associations, live sessions with CP/UP SEIDs).",
+         "Histories are sampled, not enumerated; acceptance of valid requests is not asserted except that a deletion naming a live session is not refused; one response is judged within a silence window. " + TRUST,
+         "5 C02"),
+ "C03": ("TLA+ R-specs Pfcp + BessImage (image function of the live sessions' rules; ports compared by PortRange!ExactCoverPair): TLC validates the BESS tables recorded after every step of the real agent",
+         "After every accepted establishment / modification / deletion and after every (re)start - including SIGKILL of the agent and a new incarnation against the still populated server - TLC compares the "
+         "content of the harness-owned BESS server (pdrLookup, farLookup, appQERLookup, sessionQERLookup) with the image the reference specification computes from the live sessions' current rules "
+         "(TablesAreImage: nothing missing, nothing else present), and checks UnknownOrUnassociatedRejected, RejectedWritesNothing and StartClearsLookupModules. "
+         "Listed known finding F-QER-RELABEL is tolerated through named slack only for sessions whose history triggers it.",
+         "Randomised histories inside the generators' envelope (DESIGN A.1); kill points are between script steps; packet-level Classify=Denote is argued compositionally (field-wise image) rather than sampled. " + TRUST,
+         "5 C03"),
 }
 
 def hooks_commits():
